@@ -104,17 +104,42 @@ def body_attach(cube, **kw):
     e0, e1 = idx(kw['e0'], len(EPS)), idx(kw['e1'], len(EPS) + 1)
     link, twice = bool(kw['l']), bool(kw['tw'])
     second = bool(kw['second']) if 'second' in kw else False
+    pre = bool(kw['pre']) if 'pre' in kw else False
+    ana = bool(kw['ana']) if 'ana' in kw else False
     with notrace(), reclimit():
         lg, lcf = langs.build_lang(L_MINI())
-        m, A = mb.build_model(lcf, ['N', 'N'], names=['x', 'y:1'])
+        if pre:
+            # model attackers are created before the assets, so that they hold the ids 0 and 1
+            from maltoolbox.model import Model
+            m = Model('m', lcf)
+            early = [AttackerAttachment(name='att0'), AttackerAttachment(name='att1')]
+            A = []
+        else:
+            m, A = mb.build_model(lcf, ['N', 'N'], names=['x', 'y:1'])
+            early = None
+        if pre:
+            kept = []
+            for k_, e_ in enumerate([e0, e1]):
+                if e_ < len(EPS):
+                    m.add_attacker(early[k_])
+                    kept.append(early[k_])
+            for nm_ in ('x', 'y:1'):
+                a_ = lcf.ns.N(name=nm_)
+                m.add_asset(a_)
+                A.append(a_)
+        if ana:
+            A[0].d = 1.0            # enabled defense: step a of asset x is not viable
         if link:
             mb.add_link(m, lcf, 'PQ', 'p', [A[0]], 'q', [A[1]])
         want = []
         for k, e in enumerate([e0, e1]):
             if e >= len(EPS):
                 continue
-            t = AttackerAttachment(name='att%d' % k)
-            m.add_attacker(t)
+            if pre:
+                t = early[k]
+            else:
+                t = AttackerAttachment(name='att%d' % k)
+                m.add_attacker(t)
             if e == len(EPS) - 1:
                 t.entry_points = [(A[ai], list(steps)) for (ai, steps) in EPS[e]]
             else:
@@ -123,16 +148,23 @@ def body_attach(cube, **kw):
                         t.add_entry_point(A[ai], st)
             want.append(('att%d' % k, sorted(set('%s:%s' % (A[ai].name, st) for (ai, steps) in EPS[e] for st in steps if st != 'nosuchstep'))))
         g = AttackGraph(lg, m)
+        if pre:
+            from maltoolbox.attackgraph import Attacker as _A
+            g.add_attacker(_A(name='by hand'))      # takes graph attacker id 0
+        if ana:
+            from maltoolbox.attackgraph.analyzers.apriori import calculate_viability_and_necessity as _c
+            _c(g)
         if second:
             other = AttackGraph(lg, m)          # a later graph generated from the same model must not interfere
         g.attach_attackers()
         if twice:
             g.regenerate_graph()
             g.attach_attackers()
-        if len(g.attackers) != len(want):
-            return 'attach_attackers created %d attackers for %d model attackers' % (len(g.attackers), len(want))
+        mine = [x for x in g.attackers if x.name != 'by hand']
+        if len(mine) != len(want):
+            return 'attach_attackers created %d attackers for %d model attackers' % (len(mine), len(want))
         ids = []
-        for ga, (nm, eps) in zip(g.attackers, want):
+        for ga, (nm, eps) in zip(mine, want):
             if ga.name != nm:
                 return 'graph attacker named %r, model attacker %r' % (ga.name, nm)
             if ga.id in ids or g.get_attacker_by_id(ga.id) is not ga:
@@ -173,9 +205,9 @@ def queries(tier):
                   'AttackGraphNode.undo_compromise', 'AttackGraph.remove_attacker', 'AttackGraph.add_attacker',
                   'AttackGraph.attach_attackers'],
     ))
-    ps = [I('e0', 0, len(EPS) - 1), I('e1', 0, len(EPS)), B('l'), B('tw'), B('second')]
-    qs.append(Query(name='attach', body=body_attach, params=ps, timeout=400,
-                    witnesses=[({}, {'e0': 2, 'e1': 3, 'l': True, 'tw': True, 'second': True})],
+    ps = [I('e0', 0, len(EPS) - 1), I('e1', 0, len(EPS)), B('l'), B('tw'), B('second'), B('pre'), B('ana')]
+    qs.append(Query(name='attach', body=body_attach, params=ps, timeout=400, pre=['not (pre and tw)'], split=['e0'],
+                    witnesses=[({}, {'e0': 2, 'e1': 3, 'l': True, 'tw': True, 'second': True, 'pre': False, 'ana': True})],
                     bound='graph generated from a 2-asset L_MINI model with one or two model attackers whose entry points range over %s '
                           '(incl. a step that does not exist, several steps per asset, several assets); attach once or after a regeneration, with or without a second graph generated from the same model in between' % EPS))
     return qs
